@@ -994,6 +994,23 @@ func (f *Frame) applyContract0(in ssa.Instruction, ct *Contract, fn *ssa.Functio
 			st.heap[h] = c.freshConst("g:"+gname, srt)
 		}
 	}
+	// untracked ghost variables say something only about the most recent call that mentions them: such a call
+	// gives them new, unknown values first (its ghostsets / ensures then pin them)
+	{
+		var un []string
+		for gname := range x.S.GhostUntracked {
+			// ... at calls whose contract speaks about the variable (sets it or states something about it)
+			if contractMentions(ct, gname) {
+				un = append(un, gname)
+			}
+		}
+		sort.Strings(un)
+		for _, gname := range un {
+			srt := x.resolveSort(x.S.GhostVars[gname])
+			h := c.ghostVar(gname, srt)
+			st.heap[h] = c.freshConst("g:"+gname, srt)
+		}
+	}
 	e := mk(st, results)
 	e.ghostSets(ct, st, g)
 	e = mk(st, results)
@@ -1317,4 +1334,16 @@ func maxi2(a, b int) int {
 		return a
 	}
 	return b
+}
+
+func contractMentions(ct *Contract, name string) bool {
+	re := regexp.MustCompile(`\b` + regexp.QuoteMeta(name) + `\b`)
+	for _, cls := range [][]*Clause{ct.Ensures, ct.GhostSets} {
+		for _, cl := range cls {
+			if re.MatchString(cl.Text) {
+				return true
+			}
+		}
+	}
+	return re.MatchString(ct.Flags["modifies"])
 }
